@@ -268,6 +268,22 @@ func (w *World) condRel(a *binArm, e ast.Expr) (relSet, types.Type, string) {
 			}
 			return relSet{r1.lt || r2.lt, r1.eq || r2.eq, r1.gt || r2.gt}, t, ""
 		}
+		if x.Op == token.LAND {
+			// a conjunction holds for the orderings both sides hold for
+			r1, t1, e1 := w.condRel(a, x.X)
+			r2, t2, e2 := w.condRel(a, x.Y)
+			if e1 != "" {
+				return relSet{}, nil, e1
+			}
+			if e2 != "" {
+				return relSet{}, nil, e2
+			}
+			t := t1
+			if t == nil {
+				t = t2
+			}
+			return relSet{r1.lt && r2.lt, r1.eq && r2.eq, r1.gt && r2.gt}, t, ""
+		}
 		var r relSet
 		switch x.Op {
 		case token.LSS:
